@@ -511,7 +511,30 @@ func (fc *FnCtx) translate() {
 	if fc.c != nil && len(fc.c.Logical) > 0 {
 		fc.logical = map[string]binding{}
 		for _, lv := range fc.c.Logical {
-			fc.logical[lv] = binding{Leaf(fc.freshConst("logical_"+lv, SInt)), specIntType}
+			var lt types.Type = specIntType
+			if te, ok := fc.c.LogicalTypes[lv]; ok && fc.fn.Pkg != nil {
+				// evaluate in the file scope of the package's contracts file (its imports are visible there)
+				at := token.NoPos
+				sc := fc.fn.Pkg.Pkg.Scope()
+				for _, n := range sc.Names() {
+					o := sc.Lookup(n)
+					if strings.Contains(fc.eng.prog.Fset.Position(o.Pos()).Filename, "verif_contracts") {
+						at = o.Pos()
+						break
+					}
+				}
+				if tv, err := types.Eval(fc.eng.prog.Fset, fc.fn.Pkg.Pkg, at, te); err == nil && tv.IsType() {
+					lt = tv.Type
+				} else {
+					fc.unbound = append(fc.unbound, fmt.Sprintf("logical %s: cannot evaluate type %q", lv, te))
+				}
+			}
+			sh := shapeOf(lt, fc.mode)
+			if sh.K != KLeaf {
+				fc.unbound = append(fc.unbound, fmt.Sprintf("logical %s: only scalar and function types", lv))
+				continue
+			}
+			fc.logical[lv] = binding{Leaf(fc.freshConst("logical_"+lv, sh.Sort)), lt}
 		}
 	}
 	st := fc.initialState()
